@@ -1,4 +1,5 @@
 PROP = {
+    "ready": True,
     "harness": ["harness/C17.cpp"],
     "units": [{"src": "R:igris/util/crc.c"}],
     "targets": [
